@@ -947,10 +947,14 @@ impl ClientConfigBuilder<states::WantsRootStore> {
         use crate::tls::client::ServerHashVerification;
         use rustls::RootCertStore;
 
-        let tls_config = build_default_tls_config(
+        let mut tls_config = build_default_tls_config(
             Arc::new(RootCertStore::empty()),
             Some(Arc::new(ServerHashVerification::new(hashes))),
         );
+
+        // A resumed TLS session does not present the certificate again, so the verifier
+        // (and with it the validity period check) would be skipped on reconnections.
+        tls_config.resumption = rustls::client::Resumption::disabled();
 
         let endpoint_config = quinn::EndpointConfig::default();
         let transport_config = quinn::TransportConfig::default();
